@@ -180,12 +180,26 @@ open JanetModel.Gen.Sandbox in
 example : benignCallees.length > 50 ∧ flagWriters.all (fun w => mayGrowIds.contains w) = true := by decide +kernel
 
 open JanetModel.Gen.Sandbox in
-/-- the regenerated shape of thread start is `SysOp.spawn` (child's word := parent's word, at every hand-over site) -/
+/-- the regenerated shape of thread start is `SysOp.spawn` (child's word := parent's word, at every hand-over site, through
+    the spawner's message copy and the thread body, into the subroutine's `janet_init(); flags := msg.argi`) -/
 theorem gen_threadStart : threadStartOK threadStart = true := by decide +kernel
 
-/-- non-vacuity: a hand-over that does not pass the flag word is rejected -/
+open JanetModel.Gen.Sandbox in
+/-- ★ thread start of the current tree, followed step by step through the message (`spawnC` over the regenerated
+    configuration), IS the model's `SysOp.spawn`: the new thread's word is its parent's word, whatever an unchecked step could
+    have delivered (`junk`) -/
+theorem gen_spawn_refines (s : Sys) (tid fl junk : Nat) (hs : s[tid]? = some fl) :
+    (s.step (.spawn tid))[s.length]? = some (spawnC (threadCfgOf threadStart) fl junk) :=
+  Sound.spawn_is_spawnC _ gen_threadStart s tid fl junk hs
+
+/-- non-vacuity: a hand-over that does not pass the flag word is rejected; so is a spawner that patches the message -/
 example : threadStartOK [("janet_go_thread_subr", "janet_init; flags := msg.argi"), ("cfun_ev_thread", "unverified hand-over via janet_ev_threaded_call"),
-    ("janet_ev_threaded_await", "msg.argi := parameter argi; janet_ev_threaded_call(fp, msg)")] = false := by decide
+    ("janet_ev_threaded_await", "msg.argi := parameter argi; janet_ev_threaded_call(fp, msg)"),
+    ("janet_ev_threaded_call", "init.msg := arguments; init.subr := fp; pthread_create(body, init)"),
+    ("thread body", "msg := init.msg; subr := init.subr; subr(msg)")] = false := by decide
+example : threadStartOK [("janet_go_thread_subr", "janet_init; flags := msg.argi"), ("cfun_ev_thread", "janet_ev_threaded_call: msg.argi := flags"),
+    ("janet_ev_threaded_await", "msg.argi := parameter argi; janet_ev_threaded_call(fp, msg)"),
+    ("janet_ev_threaded_call", "unrecognised message path: the message field of the init block is addressed 2 times")] = false := by decide
 
 open JanetModel.Gen.Sandbox in
 /-- ★ the whole property for the program as it is now (entry points = address-taken functions of the slice): a capability
